@@ -88,7 +88,9 @@ def fieldset_def(draw, max_fields=5, dims_pool=DIMS):
 # value descriptions
 
 
-def _rng_array(seed: int, n: int, typ: str) -> np.ndarray:
+def _rng_array(seed: int, n: int, typ: str, raw: bool = False) -> np.ndarray:
+    """raw=True: the float64 data a user would assign (for a float32 field it is NOT exactly representable);
+    raw=False: the same data cast to the field type = what the store must return."""
     rng = np.random.default_rng(seed)
     if typ in ('f8', 'f4'):
         a = rng.normal(0.0, 1000.0, size=n)
@@ -101,7 +103,7 @@ def _rng_array(seed: int, n: int, typ: str) -> np.ndarray:
                 a[-1] = -1e-30
             elif k == 2:
                 a[n // 2] = 1e30
-        return a.astype(NPTYPE[typ])
+        return a if raw else a.astype(NPTYPE[typ])
     if typ == 'i4':
         return rng.integers(-2_000_000_000, 2_000_000_000, size=n, dtype=np.int64).astype(np.int32)
     if typ == 'i8':
@@ -113,7 +115,8 @@ def scalar_strategy(typ: str):
     if typ == 'f8':
         return st.floats(-1e30, 1e30, allow_nan=False, allow_infinity=False)
     if typ == 'f4':
-        return st.floats(-(2.0**99), 2.0**99, allow_nan=False, allow_infinity=False, width=32)
+        # float64 values: most are not exactly representable in the float32 field they are assigned to
+        return st.floats(-1e30, 1e30, allow_nan=False, allow_infinity=False)
     if typ == 'i4':
         return st.integers(-2_000_000_000, 2_000_000_000)
     if typ == 'i8':
@@ -222,6 +225,26 @@ def expected_field(f: dict, v: dict, n: int):
     raise ValueError(dims)
 
 
+def raw_field(f: dict, v: dict, n: int):
+    """The value as a user hands it over (uncast: Python floats / float64 arrays even for float32 fields)."""
+    if 'unset' in v:
+        return None
+    dims, typ = f['dims'], f['type']
+    if dims == 'T':
+        return v['v']
+    if dims == 'TP':
+        return _rng_array(v['seed'], n, typ, raw=True)
+    if dims == 'TM':
+        return dict(zip(MODES, v['m']))
+    if dims == 'TS':
+        return dict(v['s'])
+    if dims == 'TSP':
+        return {s: _rng_array(sd, n, typ, raw=True) for s, sd in v['sseed'].items()}
+    if dims == 'TSM':
+        return {s: dict(zip(MODES, xs)) for s, xs in v['sm'].items()}
+    raise ValueError(dims)
+
+
 def expected_traj(desc: dict, fdefs=()) -> dict:
     """name -> expected value for every field of the trajectory."""
     n = desc['n']
@@ -245,26 +268,32 @@ def expected_traj(desc: dict, fdefs=()) -> dict:
     return out
 
 
-def to_aeic_value(f: dict, ev):
-    """Model value -> the object a user would assign (SpeciesValues etc.)."""
+def to_aeic_value(f: dict, ev, reverse_modes: bool = False):
+    """Raw value -> the object a user would assign (SpeciesValues etc.).  reverse_modes: thrust-mode maps are
+    filled in the opposite of the enum order (a mapping has no order: the result must be the same)."""
     from AEIC.performance.types import ThrustMode, ThrustModeValues
     from AEIC.types import Species, SpeciesValues
 
     if ev is None:
         return None
     dims = f['dims']
+
+    def modes(d):
+        items = list(d.items())
+        if reverse_modes:
+            items = items[::-1]
+        return ThrustModeValues({ThrustMode(m): x for m, x in items})
+
     if dims in ('T', 'TP'):
         return ev.copy() if isinstance(ev, np.ndarray) else ev
     if dims == 'TM':
-        return ThrustModeValues({ThrustMode(m): x for m, x in ev.items()})
+        return modes(ev)
     if dims == 'TS':
         return SpeciesValues({Species[s]: x for s, x in ev.items()})
     if dims == 'TSP':
         return SpeciesValues({Species[s]: x.copy() for s, x in ev.items()})
     if dims == 'TSM':
-        return SpeciesValues(
-            {Species[s]: ThrustModeValues({ThrustMode(m): x for m, x in xs.items()}) for s, xs in ev.items()}
-        )
+        return SpeciesValues({Species[s]: modes(xs) for s, xs in ev.items()})
     raise ValueError(dims)
 
 
@@ -290,7 +319,7 @@ def build_traj(desc: dict, fdefs=(), skip_fieldsets=()):
         for fname, f, v in zip(field_names(fd), fd['fields'], vals):
             if v.get('unset') == 'never':
                 continue
-            setattr(t, fname, to_aeic_value(f, ev[fname]))
+            setattr(t, fname, to_aeic_value(f, raw_field(f, v, desc['n']), reverse_modes=bool(desc['seed'] % 2)))
     return t
 
 
@@ -306,7 +335,7 @@ def build_extras_object(desc: dict, fdefs):
     for fd in fdefs:
         vals = desc['extras'][fs_name(fd)]
         for fname, f, v in zip(field_names(fd), fd['fields'], vals):
-            setattr(o, fname, to_aeic_value(f, ev[fname]))
+            setattr(o, fname, to_aeic_value(f, raw_field(f, v, desc['n']), reverse_modes=bool(desc['seed'] % 2)))
     return o
 
 
